@@ -159,31 +159,43 @@ static double now_s(void) { struct timespec t; clock_gettime(CLOCK_MONOTONIC, &t
 /* ------------------------------------------------------------------ 3 */
 /* The library is compiled with -Dmalloc=vf_malloc etc., so every allocation it
  * makes (including the few direct malloc/free calls) is observable here. */
-#define VF_TAB (1u << 16)
 typedef struct { void *p; size_t sz; long seq; } vf_blk_t;
-static vf_blk_t vf_tab[VF_TAB];
+static vf_blk_t *vf_tab; static unsigned vf_cap, vf_fill;      /* open addressing, grows; vf_fill counts live + tombstones */
+#define VF_TAB vf_cap
 static long vf_nlive, vf_live_bytes, vf_alloc_calls, vf_free_calls, vf_fail_from = -1, vf_failed, vf_bad_free;
 static long vf_max_live_bytes;
 static pthread_mutex_t vf_amtx = PTHREAD_MUTEX_INITIALIZER;
-static int vf_fill = 0x7f;
-static unsigned vf_hash(void *p) { unsigned long x = (unsigned long)p; x ^= x >> 17; x *= 0x9E3779B97F4A7C15UL; return (unsigned)(x >> 40) & (VF_TAB - 1); }
+static int vf_fill_byte = 0x7f;
+#define vf_fill_pattern vf_fill_byte
+static unsigned vf_hash(void *p) { unsigned long x = (unsigned long)p; x ^= x >> 17; x *= 0x9E3779B97F4A7C15UL; return (unsigned)(x >> 32) & (vf_cap - 1); }
+static void vf_grow(void) {
+    unsigned ocap = vf_cap; vf_blk_t *old = vf_tab;
+    vf_cap = ocap ? ocap * 2 : (1u << 14); vf_tab = calloc(vf_cap, sizeof *vf_tab); vf_fill = 0;
+    if (!vf_tab) { fprintf(stderr, "vf allocator model: out of memory\n"); _exit(96); }
+    for (unsigned i = 0; i < ocap; i++) if (old[i].p && old[i].p != (void *)1) { unsigned h = vf_hash(old[i].p); while (vf_tab[h].p) h = (h + 1) & (vf_cap - 1); vf_tab[h] = old[i]; vf_fill++; }
+    free(old);
+}
 static void vf_track(void *p, size_t sz) {
+    if (!vf_cap || vf_fill * 2 >= vf_cap) vf_grow();
     unsigned h = vf_hash(p);
-    while (vf_tab[h].p && vf_tab[h].p != (void *)1) h = (h + 1) & (VF_TAB - 1);
+    while (vf_tab[h].p && vf_tab[h].p != (void *)1) h = (h + 1) & (vf_cap - 1);
+    if (!vf_tab[h].p) vf_fill++;
     vf_tab[h].p = p; vf_tab[h].sz = sz; vf_tab[h].seq = vf_alloc_calls;
     vf_nlive++; vf_live_bytes += sz; if (vf_live_bytes > vf_max_live_bytes) vf_max_live_bytes = vf_live_bytes;
 }
 static int vf_untrack(void *p) {
+    if (!vf_cap) return 0;
     unsigned h = vf_hash(p); unsigned n = 0;
-    while (vf_tab[h].p && n++ < VF_TAB) {
+    while (vf_tab[h].p && n++ < vf_cap) {
         if (vf_tab[h].p == p) { vf_tab[h].p = (void *)1; vf_nlive--; vf_live_bytes -= vf_tab[h].sz; return 1; }
-        h = (h + 1) & (VF_TAB - 1);
+        h = (h + 1) & (vf_cap - 1);
     }
     return 0;
 }
 static size_t vf_block_size(void *p) {
+    if (!vf_cap) return (size_t)-1;
     unsigned h = vf_hash(p); unsigned n = 0;
-    while (vf_tab[h].p && n++ < VF_TAB) { if (vf_tab[h].p == p) return vf_tab[h].sz; h = (h + 1) & (VF_TAB - 1); }
+    while (vf_tab[h].p && n++ < vf_cap) { if (vf_tab[h].p == p) return vf_tab[h].sz; h = (h + 1) & (vf_cap - 1); }
     return (size_t)-1;
 }
 void *vf_malloc(size_t sz) {
@@ -191,7 +203,7 @@ void *vf_malloc(size_t sz) {
     vf_alloc_calls++;
     if (vf_fail_from >= 0 && vf_alloc_calls >= vf_fail_from) { vf_failed++; pthread_mutex_unlock(&vf_amtx); return NULL; }
     void *p = malloc(sz ? sz : 1);
-    if (p) { memset(p, vf_fill, sz); vf_track(p, sz); }
+    if (p) { memset(p, vf_fill_byte, sz); vf_track(p, sz); }
     pthread_mutex_unlock(&vf_amtx);
     return p;
 }
